@@ -12,10 +12,10 @@ import (
 
 func C04(tier string) int {
 	h := Harness{File: "c04.go", Extra: []string{"lib_bondmachine.go"}, Pkg: "pkg/bondmachine"}
-	type p struct{ k, words, T int }
-	fam := []p{{1, 2, 8}, {1, 3, 8}, {2, 2, 7}}
+	type p struct{ k, words, T, delay int }
+	fam := []p{{1, 2, 8, 0}, {1, 3, 8, 0}, {2, 2, 7, 0}, {1, 2, 10, 2}}
 	if tier == "thorough" {
-		fam = []p{{1, 2, 12}, {1, 3, 12}, {1, 4, 10}, {2, 2, 10}, {2, 3, 10}, {3, 2, 8}, {3, 3, 8}}
+		fam = []p{{1, 2, 12, 0}, {1, 3, 12, 0}, {1, 4, 10, 0}, {2, 2, 10, 0}, {2, 3, 10, 0}, {3, 2, 8, 0}, {3, 3, 8, 0}, {1, 2, 12, 3}, {1, 3, 12, 2}, {2, 2, 10, 2}}
 	}
 	var cfgs []Config
 	for _, f := range fam {
@@ -30,9 +30,10 @@ func C04(tier string) int {
 				}
 				k, ord := f.k, order
 				cfgs = append(cfgs, Config{
-					Name: fmt.Sprintf("consumers=%d program_words=%d ticks=%d mode=%s order=%d", f.k, f.words, f.T, mname, order),
-					Func: "zzC04", Args: []Arg{I(f.k), I(f.words), I(f.T), I(mode)},
+					Name: fmt.Sprintf("consumers=%d program_words=%d ticks=%d mode=%s order=%d delays<=%d", f.k, f.words, f.T, mname, order, f.delay),
+					Func: "zzC04", Args: []Arg{I(f.k), I(f.words), I(f.T), I(mode), I(f.delay)},
 					Setup: func(in *symgo.Interp) {
+						delayHooks(in)
 						// goroutine ids: 1 = EmuDriverDispatcher, 2.. = processors in creation order
 						var o []int
 						for i := 0; i <= k; i++ {
@@ -57,7 +58,7 @@ func C04(tier string) int {
 		Assumptions: []string{
 			"simulator side only: bondmachine.VM.Step, Processor_execute, procbuilder.VM.Step, R2owa/I2rw.Simulate, waitRecvI2rw, Add/ExecuteDeferredInstructions executed symbolically; the generated hardware is not part of this check yet",
 			"one producer (opcodes inc,j,nop,r2owa) bonded to k consumers (cpy,i2rw,inc,j,nop), 8-bit registers, R=1; every ROM word of the first program_words addresses and every initial register is a solver variable (any instruction mix, any padding, hence any relative speed); the rest of the ROM jumps to 0",
-			"bounded horizon (ticks) from the reset state of the handshake flags; no per-opcode delay distributions",
+			"bounded horizon (ticks) from the reset state of the handshake flags; configurations with delays<=D give every opcode a single-delay distribution whose delay is a solver variable in 0..D (SimDelayMap); simbox.DelayDistribution.GetValue is stubbed by its contract (returns one of the delays of the distribution), multi-valued distributions are outside",
 			"goroutines: deterministic run-until-block scheduler, sends do not block, two resume orders of the processor workers; Go-scheduler interleavings and data races are outside (C09)",
 			"mode=known-situations-excluded assumes away exactly the two recorded defects: (i) an i2rw executing while its input's received flag is still high from the previous capture, (ii) an r2owa starting a new offer while received is still high from the previous transfer; everything else must hold there",
 			"a panic of the simulator is assumed away (operands out of range)",
